@@ -111,3 +111,5 @@ def run(out, sc, tier, seed):
     # scheduled and systematic single-pre-emption schedules), every exception class observed in any step judged by TraceMem
     from .c20 import thread_executions
     thread_executions(out, sc, tier, seed, "C19", scale=0.5)
+    from .common import run_witnesses
+    run_witnesses(out, sc, "C19")
